@@ -845,6 +845,8 @@ class MkVec(Op):
         how = rng.choice(["random", "random", "project", "ones"])
         return {"basis": ref(b), "how": how, "seed": rng.randrange(1 << 30),
                 "fun": rng.choice(sorted(R.FUNS)),
+                "dtype": rng.choice([None, None, "complex64", "complex128",
+                                     "float32"]),
                 "wrong_len": rng.random() < 0.03}
 
     def meta(self, a, S):
@@ -860,6 +862,8 @@ class MkVec(Op):
                 .standard_normal(n)
         if a["how"] == "ones":
             return np.ones(n)
+        if a.get("dtype"):
+            return b.project(R.FUNS[a["fun"]], dtype=getattr(np, a["dtype"]))
         return b.project(R.FUNS[a["fun"]])
 
 
@@ -976,7 +980,9 @@ class BasisMisc(Op):
         b = S.slots[v]["basis"]
         return {"vec": ref(v), "basis": ref(b),
                 "how": rng.choice(["split", "refinterp", "project-self",
-                                   "project-fun", "zeros"]),
+                                   "project-fun", "project-fun", "zeros"]),
+                "dtype": rng.choice([None, None, "complex64", "complex128",
+                                     "float32"]),
                 "fun": rng.choice(sorted(R.FUNS))}
 
     def apply(self, W, a):
@@ -991,6 +997,9 @@ class BasisMisc(Op):
         if h == "project-self":
             return b.project(b.interpolate(y))
         if h == "project-fun":
+            if a.get("dtype"):
+                return b.project(R.FUNS[a["fun"]],
+                                 dtype=getattr(np, a["dtype"]))
             return b.project(R.FUNS[a["fun"]])
         return [b.zeros(), b.ones()]
 
